@@ -690,23 +690,24 @@ class RotationImplemented(BaseAlignmentModel):
             _template = [_template]
         if _mask.ndim == 3:
             _mask = [_mask]
-        for quat, tmp, mask in zip(self.quaternions, _template, _mask):
+        # candidates are ordered (rot0, temp0), (rot0, temp1), ..., (rot1, temp0), ...
+        for i, (tmp, mask) in enumerate(zip(_template, _mask)):
             pool.add_task(
                 self.pre_transform(img_input * mask, xp),
                 tmp,
                 max_shifts,
-                quat,
+                self.quaternions[i // self._n_templates],
                 pos=pos,
                 backend=xp,
             )
         results = pool.compute()
         scores = [x[2] for x in results]
-        iopt = np.argmax(scores)
+        iopt = int(np.argmax(scores))
         opt_result = results[iopt]
         result = AlignmentResult(
-            label=0,
+            label=iopt % self._n_templates,
             shift=opt_result[0],
-            quat=self.quaternions[iopt],
+            quat=self.quaternions[iopt // self._n_templates],
             score=opt_result[2],
         )
 
